@@ -32,6 +32,10 @@ claimed = {
    "parReduce over any split tree equals foldl for associative operators with identity; the translator regenerates the list of every cfg_iter!/rayon site and RNG-under-parallel site from /repo on each run and `decide` checks them against the allow-list the theorems cover; serialized outputs of all schemes are hashed in child processes under RAYON_NUM_THREADS in {1,2,3,8,16} and in a build without the parallel feature. Partial: what rayon does at run time is outside the model."),
  "C12": ("Lean proof (codec combinators preserve round-trip/size/prefix-failure; schema agreement => struct codec Good) + serializer schemas regenerated from source (T1) + real round-trips",
    "codec library with round-trip, size and prefix-failure preserved by seq/vec/option/map/btreemap; roundtrip_of_schema_agree instantiated by `decide` on the field lists the translator extracts from the hand-written CanonicalSerialize/Deserialize/Valid impls on every run; every artefact of every scheme is round-tripped (compress x validate), sizes, all proper prefixes, decisions with deserialized artefacts, byte layout = model order. Partial: primitive point/field encodings and the derive macro are trusted."),
+ "C04": ("Lean proof (admission refusals, bounded completeness, exact mislabel condition) + boundary / mutation correspondence",
+   "commit/open refuse a bound that is not enforced, below the degree or above the maximum; honest use with any admissible bound is accepted (C01 theorem with bounds); a commitment accepted under d' is accepted under d iff h*xi'*v*(shift(d')-shift(d)) = 0; dropped/added shifted parts abort; boundary generator and relabel/drop/swap mutations on trapdoor keys decided by implementation and model."),
+ "C09": ("Lean proof (trim of trapdoor-made parameters yields exactly the stated sub-keys) + real-setup correspondence",
+   "trim_wf: prefix powers, gamma powers, shifted window, shift elements for sort(dedup(bounds)), truthful reports, interoperable verifier core, out-of-range refused; real setup: trapdoor recovered by RNG replay and verified on every element plus pairing identities; transparent generators valid, distinct, deterministic, prefix-stable."),
 }
 # properties whose machinery is not built yet (listed under not_applicable with that reason, as the brief asks)
 not_yet = {
